@@ -21,7 +21,8 @@ RULE = ("valid base scripts with exactly one injected fault: undefined name in {
         "loop list, metadata option, scalar initialiser, array element} inside/outside executed loop bodies; reserved names (qN, name, version, "
         "target, type) as scalar and array; modes of float/complex/str value (literal, variable, computed, array element); literal and computed "
         "complex values into int/float scalars and arrays; loop values not of the loop type; include calls with wrong mode count/keywords; "
-        "every case certified ill-formed by the reference; non-trivial = all (each has >=1 preceding valid statement or declaration); distinct by SHA-1")
+        "every case certified ill-formed by the reference; non-trivial = all (each has >=1 preceding valid statement or declaration); distinct by SHA-1"
+        '; undefined name that an included file declares')
 BUDGET = {"quick": 6000, "thorough": 80000}
 MIN_NONTRIVIAL = {"quick": 800, "thorough": 8000}
 REQUIRED_FUNCTIONS = ["auxiliary.py:_expression", "listener.py:BlackbirdListener.exitExpressionvar", "listener.py:BlackbirdListener.exitArrayvar",
